@@ -33,6 +33,39 @@ Inductive crange :=
 | CRBytes (first last total : N)    (* "bytes {first}-{last}/{total}" *)
 | CRUnsat (total : N).              (* "bytes */{total}" *)
 
+(* Display of a u64 (decimal, no padding) *)
+Fixpoint dec_go (fuel : nat) (n : N) (acc : bytes) : bytes :=
+  match fuel with
+  | O => acc
+  | S f => let d := 48 + n mod 10 in
+           if n <? 10 then d :: acc else dec_go f (n / 10) (d :: acc)
+  end.
+Definition dec (n : N) : bytes := dec_go 40 n [].
+
+(* the header value text: "bytes {}-{}/{}" / "bytes */{}" *)
+Definition render_cr (c : crange) : bytes :=
+  match c with
+  | CRBytes f l t => [98; 121; 116; 101; 115; 32] ++ dec f ++ [45] ++ dec l ++ [47] ++ dec t
+  | CRUnsat t => [98; 121; 116; 101; 115; 32; 42; 47] ++ dec t
+  end.
+
+(* format!(template, args..): every "{}" is replaced by the next argument's Display *)
+Fixpoint fmt (tpl : bytes) (args : list bytes) : bytes :=
+  match tpl with
+  | [] => []
+  | b :: r =>
+      match r with
+      | c :: r' =>
+          if (b =? 123) && (c =? 125) then
+            match args with
+            | a :: args' => a ++ fmt r' args'
+            | [] => fmt r' []
+            end
+          else b :: fmt r args
+      | [] => [b]
+      end
+  end.
+
 Record resp := mkResp {
   status : N;
   content_range : option crange;
